@@ -36,6 +36,8 @@ class Case:
                 out.append("%s %s" % (o[0], G.rawhex(o[1])))
             elif o[0] == "clock":
                 out.append("clock %d" % o[1])
+            elif o[0] == "failat":
+                out.append("failat %d" % o[1])
             else:
                 out.append(o[0])
         out.append("END")
@@ -50,8 +52,8 @@ def show_op(o):
         return "set %s %s" % (G.rawhex(o[1]), valspec(o[2]))
     if o[0] in ("get", "del"):
         return "%s %s" % (o[0], G.rawhex(o[1]))
-    if o[0] == "clock":
-        return "clock %d" % o[1]
+    if o[0] in ("clock", "failat"):
+        return "%s %d" % (o[0], o[1])
     return o[0]
 
 
